@@ -285,6 +285,25 @@ def impM (n : String) (c : Path) (st : Index) : Bool × Index :=
 def resolveSt (st : Index) (f : Path) (n : String) : Option Def × Index :=
   resolveFM st.defs impM f n (fun _ => true) st
 
+/-- the resolutions `detect_scope_mismatches_in_file` performs for file `f`, in its order, with
+    the memo tables threaded: for every fixture name of `file_definitions[f]` the first definition
+    in `f`, and for each of its dependencies `find_closest_definition` from `f` (excluding the
+    fixture itself when it requests its own name). -/
+def scopeTableSt (st : Index) (f : Path) : List ((Def × String) × Option Def) × Index :=
+  ((alookup st.fileDefs f).getD []).foldl (fun (acc : List ((Def × String) × Option Def) × Index) n =>
+    match (defsOf acc.2.defs n).find? (fun d => d.file == f) with
+    | none => acc
+    | some fd =>
+      fd.deps.foldl (fun (acc : List ((Def × String) × Option Def) × Index) dep =>
+        let (r, st') := resolveFM acc.2.defs impM f dep (fun x => if dep == fd.name then x != fd else true) acc.2
+        (acc.1 ++ [((fd, dep), r)], st')) acc) ([], st)
+
+/-- the table read back as the resolver argument of `mismatchesIn` -/
+def tableRes (t : List ((Def × String) × Option Def)) (fd : Def) (dep : String) : Option Def :=
+  match t.find? (fun e => e.1.1 == fd && e.1.2 == dep) with
+  | some e => e.2
+  | none => none
+
 def usagesOf (st : Index) (f : Path) : List Usage := (alookup st.usages f).getD []
 
 def lineText (st : Index) (f : Path) (line0 : Nat) : Option Chars :=
